@@ -278,10 +278,20 @@ func (c *Real64) Log1p(a ConstScalar) Scalar {
   return c.monadicLazy(a, v0, f1, f2)
 }
 func (c *Real64) Logistic(a ConstScalar) Scalar {
-  c.Neg(a)
-  c.Exp(c)
-  c.Add(ConstFloat64(1.0), c)
-  c.Div(ConstFloat64(1.0), c)
+  if a.GetFloat64() >= 0 {
+    c.Neg(a)
+    c.Exp(c)
+    c.Add(ConstFloat64(1.0), c)
+    c.Div(ConstFloat64(1.0), c)
+  } else {
+    // exp(-a) overflows for large negative a and
+    // the derivatives become Inf/Inf
+    t := NullReal64()
+    t.Exp(a)
+    c.Set(t)
+    t.Add(t, ConstFloat64(1.0))
+    c.Div(c, t)
+  }
   return c
 }
 func (c *Real64) Erf(a ConstScalar) Scalar {
